@@ -564,7 +564,12 @@ func (s *socket) Close(discard bool) {
 	}
 	vhook.Yield("socket.Close.checked")
 
-	s.SetReadyState("closing")
+	// only an open session starts closing: a close cause may have run since
+	// the test above, and "closed" must never be overwritten
+	if !s.readyState.CompareAndSwap("open", "closing") {
+		return
+	}
+	socket_log.Debug("readyState updated from %s to %s", "open", "closing")
 
 	if length := s.writeBuffer.Len(); length > 0 {
 		socket_log.Debug("there are %d remaining packets in the buffer, waiting for the 'drain' event", length)
